@@ -1947,6 +1947,11 @@ func opcodeCheckSig(op *ParsedOpcode, t *thread) error {
 	// least 1 byte is needed for the hash type below.  The full length is
 	// checked depending on the script flags and upon parsing the signature.
 	if len(fullSigBytes) < 1 {
+		// An empty signature is a valid way to fail, but the public key
+		// must still satisfy the encoding rules.
+		if err = t.checkPubKeyEncoding(pkBytes); err != nil {
+			return err
+		}
 		t.dstack.PushBool(false)
 		return nil
 	}
@@ -2201,7 +2206,11 @@ func opcodeCheckMultiSig(op *ParsedOpcode, t *thread) error {
 
 		rawSig := sigInfo.signature
 		if len(rawSig) == 0 {
-			// Skip to the next pubkey if signature is empty.
+			// Skip to the next pubkey if signature is empty, but the public
+			// key must still satisfy the encoding rules.
+			if err := t.checkPubKeyEncoding(pubKey); err != nil {
+				return err
+			}
 			continue
 		}
 
